@@ -9,6 +9,7 @@
 EXTENDS Exec
 
 CONSTANTS Seed, Rate,
+          Deep,          \* TRUE in the thorough tier: larger boundary sets
           KnownDevs      \* keys of recorded known findings whose deviation variants are emitted too
 
 Keep(h) == (h + Seed) % Rate = 0
@@ -303,7 +304,9 @@ BMbufLenS == 20
 \* are 4 modulo 8, so that a naturally aligned 8-byte access can straddle their end
 Layouts == << <<"raw", BPktLen, 0, "end">>, <<"raw", 0, 0, "end">>, <<"mbuff", BPktLen, 0, "end">>,
               <<"nodata", 0, 0, "end">>, <<"raw", BPktLen, 2, "end">>, <<"fixed", BPktLen, 0, "end">>,
-              <<"raw", 12, 1, "start">>, <<"mbuff", 20, 0, "start">> >>
+              <<"raw", 12, 1, "start">>, <<"mbuff", 20, 0, "start">>,
+              \* regions shorter than an access: 4-, 2- and 1-byte packets (a wider access at their first byte must be refused)
+              <<"raw", 4, 0, "start">>, <<"raw", 2, 0, "end">>, <<"raw", 1, 0, "start">> >>
 
 AllowBaseS(k) == W64(0,0,112 + 16*k,0,0,16,0,0)             \* 0x1000_0070_0000 + k*0x10_0000
 
@@ -329,7 +332,7 @@ RegLen(li, r) ==
     [] r = 3 -> StackSize
     [] r \in {4, 5} -> (IF r - 3 <= Lay[3] THEN BAllowLen ELSE 0)
 
-PosSet(len) == (-9..1) \cup ((len - 9)..(len + 1))
+PosSet(len) == IF Deep THEN (-17..8) \cup ((len - 17)..(len + 9)) ELSE (-9..1) \cup ((len - 9)..(len + 1))
 
 \* the access instruction (base register 3, value register 4)
 AccInsn(kind, w, off, imm) ==
@@ -353,9 +356,10 @@ BoundsProg(c, kind, w, r, pos, off) ==
         \o LddwSlots(4, V64[16])
         \o << Mov64I(0, 0), AccInsn(kind, w, off, 305419896), ExitI >> )
 
+BaseOffs == IF Deep THEN {0, 8, -8, 127, -128, 128, 32767, -32768} ELSE {0, 8, -8}
 BoundsIdx(u) ==
   UNION { { <<lr[1], kind, w, lr[2], pos, off>> :
-              kind \in 1..4, w \in Widths, pos \in PosSet(RegLen(lr[1], lr[2])), off \in {0, 8, -8} } :
+              kind \in 1..4, w \in Widths, pos \in PosSet(RegLen(lr[1], lr[2])), off \in BaseOffs } :
           lr \in { x \in (1..Len(Layouts)) \X (1..5) : RegLen(x[1], x[2]) > 0 } }
 BoundsOK(t) == /\ RegLen(t[1], t[4]) > 0
                /\ t[5] \in PosSet(RegLen(t[1], t[4]))
@@ -385,7 +389,25 @@ PktLoadIdx(u) == { <<li, ind, w, pos, k>> : li \in {1, 2, 3, 4, 6}, ind \in {0, 
                      pos \in (0..2) \cup ((BPktLen - 9)..(BPktLen + 1)) \cup {2147483647, MinI32, -1},
                      k \in {0, 4} }
 
+\* overlapping registered ranges: an inner range nested in an outer one (same bytes where they
+\* overlap; loads only, so that the two images of the shared bytes cannot diverge).  An access
+\* inside the outer range is allowed wherever the inner one starts.
+NestOuter == 64
+NestInner == <<16, 8>>         \* offset and length of the inner range
+NestBytes == [k \in 1..NestOuter |-> (k * 3) % 256]
+NestedCase(order, w, pos) ==
+  LET ob == AllowBaseS(3)
+      outer == [base |-> ob, bytes |-> NestBytes]
+      inner == [base |-> AddN(ob, NestInner[1]), bytes |-> SubSeq(NestBytes, NestInner[1] + 1, NestInner[1] + NestInner[2])]
+      a == IF pos >= 0 THEN AddN(ob, pos) ELSE SubN(ob, -pos)
+  IN [BaseCase EXCEPT !.id = <<"nest", order, w, pos, 0, 0, 0>>, !.fam = "bounds", !.vm = "nodata",
+                      !.allow = IF order = 1 THEN <<outer, inner>> ELSE <<inner, outer>>,
+                      !.prog = Flat(LddwSlots(3, a) \o << LdxI(w, 0, 3, 0), ExitI >>)]
+NestedCases == { NestedCase(o, w, pos) : o \in {1, 2}, w \in Widths,
+                   pos \in {-1, 0, 8, 9, 12, 15, 16, 17, 20, 23, 24, 25, 32, 56, 57, 60, 63, 64} }
+
 BoundsCases(u) ==
+  NestedCases \cup
   { BoundsCaseOf(t) : t \in {x \in BoundsIdx(u) : BoundsOK(x) /\ Keep(HashB(x))} } \cup
   { AbsCaseOf(t[1], t[2], t[3], t[4]) :
       t \in { <<li, kind, w, ai>> \in ({1, 3, 4} \X (1..4) \X Widths \X (1..Len(AbsAddrs))) :
@@ -562,7 +584,9 @@ HBody(ids, a) ==
 \* d nested "callx +1 ; exit" wrappers, then the body
 HProg(d, ids, a) == Flat([k \in 1..(2*d) |-> IF k % 2 = 1 THEN CallxI(1) ELSE ExitI] \o HBody(ids, a))
 
-ArgSets == << <<2, 3, 13, 16, 19>>, <<16, 15, 14, 13, 12>>, <<1, 11, 10, 9, 20>>, <<15, 15, 15, 15, 15>>, <<18, 17, 6, 7, 8>> >>
+ArgSets0 == << <<2, 3, 13, 16, 19>>, <<16, 15, 14, 13, 12>>, <<1, 11, 10, 9, 20>>, <<15, 15, 15, 15, 15>>, <<18, 17, 6, 7, 8>> >>
+\* thorough: every rotation of the boundary values through the five argument positions
+ArgSets == IF Deep THEN ArgSets0 \o [k \in 1..NV |-> [j \in 1..5 |-> ((k + 3 * j) % NV) + 1]] ELSE ArgSets0
 RegSets(ids) == << {ids[k] : k \in 1..Len(ids)},                            \* exact
                    {ids[k] : k \in 1..Len(ids)} \cup {5, 77},               \* superset
                    {ids[k] : k \in 1..(Len(ids)-1)} \cup {5} >>             \* missing the last one
@@ -580,8 +604,9 @@ HelperCases(u) ==
 (* at entry: r1, the packet pointers of the metadata buffer, packet loads, *)
 (* the 512-byte stack under r10.                                           *)
 (***************************************************************************)
-CtxPktLens == << 0, 1, 7, 8, 9, 64 >>
-OffPairs == << <<0, 8>>, <<8, 0>>, <<64, 80>>, <<80, 64>>, <<0, 4096>>, <<4096, 8>>, <<16, 24>>, <<65536, 8>>, <<8, 16>> >>
+CtxPktLens == IF Deep THEN << 0, 1, 7, 8, 9, 64, 2, 15, 16, 17, 63, 65, 1500 >> ELSE << 0, 1, 7, 8, 9, 64 >>
+OffPairs0 == << <<0, 8>>, <<8, 0>>, <<64, 80>>, <<80, 64>>, <<0, 4096>>, <<4096, 8>>, <<16, 24>>, <<65536, 8>>, <<8, 16>> >>
+OffPairs == IF Deep THEN OffPairs0 \o << <<24, 16>>, <<0, 65536>>, <<4088, 4096>>, <<1000000, 0>>, <<7, 15>>, <<15, 7>>, <<0, 9>>, <<100, 200>> >> ELSE OffPairs0
 
 \* probes: 1 r1 ; 2 *(r1+do) ; 3 *(r1+deo) ; 4 *(r1+deo) - *(r1+do) ; 5 ldabsb 0 ; 6 ldabsb len-1 ;
 \*         7 stb [r10-1] ; 8 stb [r10-512] ; 9 stb [r10+0] ; 10 stb [r10-513] ; 11 ldxb [r1+0] ; 12 ldxb [r1+len-1]
